@@ -245,9 +245,13 @@ def c19_grid(rnd, n_scripts, full=False):
         steps = []
         d = rnd.choice([0, 0, -5]) * rate
         ad = {}
+        # a codec parameter change at a key frame in the middle of some video-led streams (same frame rate before and after:
+        # the sample duration stays constant, the parts must stay regular)
+        chg_at = (n // 2) if (kind == "v" and i % 4 == 1) else None
         for k in range(n):
             if kind == "v":
-                steps.append({"t": 0, "dts": d, "ra": 1 if k % gop == 0 else 0, "ps": 1 if k % gop == 0 else 0, "size": 8, "n": 1})
+                gen = 2 if (chg_at is not None and k >= chg_at) else 1
+                steps.append({"t": 0, "dts": d, "ra": 1 if k % gop == 0 else 0, "ps": gen if k % gop == 0 else 0, "size": 8, "n": 1})
                 for j, t in enumerate(cfg["tracks"][1:], start=1):
                     r = rate_of(t)
                     ad.setdefault(j, int((d / rate + adelay) * r))
